@@ -162,6 +162,8 @@ func stReplay(raw json.RawMessage) Verdict {
 		return stGeoScaled(&c)
 	case "big":
 		return stBig(&c)
+	case "conc":
+		return stConc(&c)
 	}
 	stBad("unknown kind %q", c.Kind)
 	return pass()
@@ -1303,6 +1305,190 @@ func stBig(c *stCase) Verdict {
 		return *v
 	}
 	return pass()
+}
+
+// stConc (kind "conc"): the statistics are functions of their arguments, so their values cannot
+// depend on what other goroutines compute at the same time on THEIR OWN, unshared samples.  N1
+// goroutines each own one sample (sizes 1..700, shapes rotating, most of them unsorted, some
+// marked Sorted); the expectations (exact rationals, stSumOf) are computed beforehand; one
+// sequential pass over every sample comes first (a failure there is reported without the
+// /concurrent suffix), then all goroutines, released together, repeat for N2 rounds
+// Mean / Variance / StdDev / Bounds / Percentile at the levels of stBig / IQR on their sample and
+// compare with the same expectations.  Afterwards N1 complete stBig cases (all t-tests, p-values,
+// the /after-queries history) are run side by side.  A panic in a worker is a verdict.
+type stConcExp struct {
+	s        stats.Sample
+	sum      *stSum
+	who      string
+	ps       []float64
+	wantP    []float64
+	wantIQR  float64
+	wantMean float64
+	wantVar  float64
+}
+
+func (e *stConcExp) pass1() *Verdict {
+	s, sum := e.s, e.sum
+	near := func(x, w, scale float64) bool {
+		return !math.IsNaN(x) && !math.IsInf(x, 0) && math.Abs(x-w) <= 1e-12*math.Max(math.Max(math.Abs(x), math.Abs(w)), scale)
+	}
+	for _, g := range []struct {
+		name string
+		v    float64
+	}{{"Sample.Mean", s.Mean()}, {"Mean", stats.Mean(s.Xs)}} {
+		if !near(g.v, e.wantMean, sum.scale) {
+			return stFail("mean/many-values", e.who, e.wantMean, g.v, "%s=%v; exact mean %v", g.name, g.v, e.wantMean)
+		}
+	}
+	if sum.n >= 2 {
+		sd1, sd2 := s.StdDev(), stats.StdDev(s.Xs)
+		for _, g := range []struct {
+			name string
+			v    float64
+		}{{"Sample.Variance", s.Variance()}, {"Variance", stats.Variance(s.Xs)}, {"Sample.StdDev^2", sd1 * sd1}, {"StdDev^2", sd2 * sd2}} {
+			if !near(g.v, e.wantVar, sum.scale*sum.scale) {
+				return stFail("variance/many-values", e.who, e.wantVar, g.v, "%s=%v; exact variance (n-1) %v", g.name, g.v, e.wantVar)
+			}
+		}
+	}
+	lo, hi := s.Bounds()
+	lo2, hi2 := stats.Bounds(s.Xs)
+	if lo != sum.sorted[0] || hi != sum.sorted[sum.n-1] || lo2 != lo || hi2 != hi {
+		return stFail("bounds/many-values", e.who, []float64{sum.sorted[0], sum.sorted[sum.n-1]}, []float64{lo, hi, lo2, hi2}, "Bounds: (%v, %v) / (%v, %v), minimum and maximum are (%v, %v)", lo, hi, lo2, hi2, sum.sorted[0], sum.sorted[sum.n-1])
+	}
+	prev := math.Inf(-1)
+	for i, p := range e.ps {
+		g := s.Percentile(p)
+		if !near(g, e.wantP[i], sum.scale) {
+			return stFail("percentile/many-values", e.who, e.wantP[i], g, "Percentile(%v)=%v; R8 gives %v", p, g, e.wantP[i])
+		}
+		if g < prev || g < lo || g > hi {
+			return stFail("percentile-not-monotone/many-values", e.who, []float64{prev, lo, hi}, g, "Percentile(%v)=%v after %v, bounds [%v, %v]", p, g, prev, lo, hi)
+		}
+		prev = g
+	}
+	if g := s.IQR(); !near(g, e.wantIQR, sum.scale) {
+		return stFail("iqr/many-values", e.who, e.wantIQR, g, "IQR()=%v; Q(3/4)-Q(1/4) = %v", g, e.wantIQR)
+	}
+	return nil
+}
+
+func stConc(c *stCase) Verdict {
+	rng := newRand(c.Salt)
+	W, rounds := c.N1, c.N2
+	if W < 2 || rounds < 1 {
+		stBad("conc case needs >= 2 workers and >= 1 round")
+	}
+	shapes := []string{"unit", "int", "wide", "ties"}
+	sizes := []int{1, 2, 3, 5, 8, 13, 20, 25, 30, 32, 33, 50, 64, 65, 100, 130, 200, 300, 512, 700}
+	exps := make([]*stConcExp, W)
+	for w := range exps {
+		n := sizes[rng.Intn(len(sizes))]
+		if c.Shape == "small" {
+			n = 2 + rng.Intn(12)
+		}
+		shape := shapes[(w+int(c.Salt%4+4))%4]
+		if n == 1 {
+			shape = "unit"
+		}
+		X := stBigGen(rng, n, shape, 0)
+		sortedMark := w%4 == 3 // most samples are unsorted
+		if sortedMark {
+			sort.Float64s(X)
+		}
+		sum := stSumOf(X)
+		e := &stConcExp{s: stats.Sample{Xs: X, Sorted: sortedMark}, sum: sum,
+			who:      fmt.Sprintf("goroutine %d of %d (each on its own sample), shape %s, n=%d, Sorted=%v, salt %d: x=%v...", w+1, W, shape, n, sortedMark, c.Salt, X[:stMinInt(4, n)]),
+			wantMean: stRF(sum.mean), wantVar: stRF(sum.vr)}
+		nf := float64(n)
+		ps := []float64{0, 1, 0.5, 0.25, 0.75, (2.0 / 3) / (nf + 1.0/3), (nf - 1.0/3) / (nf + 1.0/3), 1 / nf, 1 - 1/nf, 0.999, 0.001}
+		for j := 1; j < 12; j++ {
+			ps = append(ps, float64(j)/12)
+		}
+		for j := 0; j < 4; j++ {
+			ps = append(ps, rng.Float64())
+		}
+		sort.Float64s(ps)
+		e.ps = ps
+		for _, p := range ps {
+			e.wantP = append(e.wantP, stRF(sum.pct(p)))
+		}
+		e.wantIQR = stRF(new(big.Rat).Sub(sum.pct(0.75), sum.pct(0.25)))
+		exps[w] = e
+	}
+	// sequential pass
+	for _, e := range exps {
+		if v := e.pass1(); v != nil {
+			return *v
+		}
+	}
+	// concurrent rounds
+	runAll := func(f func(w int) *Verdict) *Verdict {
+		res := make([]*Verdict, W)
+		start := make(chan struct{})
+		done := make(chan int, W)
+		for w := 0; w < W; w++ {
+			go func(w int) {
+				defer func() {
+					if r := recover(); r != nil {
+						res[w] = &Verdict{Signature: "panic", Detail: fmt.Sprint("panic: ", r), Concrete: exps[w].who}
+					}
+					done <- w
+				}()
+				<-start
+				res[w] = f(w)
+			}(w)
+		}
+		close(start)
+		for w := 0; w < W; w++ {
+			<-done
+		}
+		for _, v := range res {
+			if v != nil {
+				v.Signature += "/concurrent"
+				return v
+			}
+		}
+		return nil
+	}
+	if v := runAll(func(w int) *Verdict {
+		for r := 0; r < rounds; r++ {
+			if v := exps[w].pass1(); v != nil {
+				v.Detail += fmt.Sprintf(" (round %d of %d, while the other goroutines query their own samples)", r+1, rounds)
+				return v
+			}
+		}
+		return nil
+	}); v != nil {
+		return *v
+	}
+	// the samples handed over are still what they were
+	for _, e := range exps {
+		chk := stSumOf(e.s.Xs)
+		if chk.mean.Cmp(e.sum.mean) != 0 || chk.ss.Cmp(e.sum.ss) != 0 {
+			return *stFail("sample-modified/concurrent", e.who, nil, nil, "the caller's sample was changed by read-only queries")
+		}
+	}
+	// complete big cases (t-tests, p-values, history) side by side
+	if v := runAll(func(w int) *Verdict {
+		n1, n2 := 2+rng2(c.Salt, w, 0)%60, 2+rng2(c.Salt, w, 1)%60
+		bc := &stCase{Kind: "big", Salt: c.Salt*31 + int64(w)*3 + 1, Tail: c.Tail, N1: n1, N2: n2, Shape: shapes[w%4]}
+		if v := stBig(bc); !v.OK {
+			return &v
+		}
+		return nil
+	}); v != nil {
+		return *v
+	}
+	return pass()
+}
+
+func rng2(salt int64, w, k int) int {
+	x := uint64(salt)*6364136223846793005 + uint64(w)*1442695040888963407 + uint64(k)*2862933555777941757 + 1
+	x ^= x >> 29
+	x *= 0xbf58476d1ce4e5b9
+	x ^= x >> 32
+	return int(x % 1000003)
 }
 
 func stMinInt(a, b int) int {
